@@ -19,6 +19,7 @@ func mv(s int, ps []int, mb int) Op    { return Op{Kind: "cmd", S: s, Cmd: "move
 func fb(s int, c string, ps ...int) Op { return Op{Kind: "cmd", S: s, Cmd: c, Ps: ps} }
 func drain(s int) Op                   { return Op{Kind: "drain", S: s} }
 func dl(s int) Op                      { return Op{Kind: "deliver", S: s} }
+func byuid(o Op) Op                    { o.ByUID = true; return o }         // the UID form of the command
 func ro(o Op) Op                       { o.RO = true; return o }            // the same command in a session that used EXAMINE
 func qs(s int) Op                      { return Op{Kind: "quiesce", S: s} } // deliver all, NOOP, probe, compare with a fresh session
 
@@ -56,6 +57,10 @@ func Corpus() []Scenario {
 		{Name: "examined-mailbox-refuses-changes", K: 2, Ops: []Op{ // EXAMINE: STORE/EXPUNGE/COPY/MOVE are refused; pending removals stay pending
 			sel(1, 0), app(1, 0, 1), app(1, 0), drain(0), ro(sel(0, 0)), cmd(0, "probe"), cmd(1, "expunge"), drain(0),
 			ro(store(0, []int{1}, "add", false, 3)), ro(cmd(0, "expunge")), ro(cp(0, []int{1}, 1)), ro(mv(0, []int{2}, 1)), cmd(0, "probe"), qs(0), qs(1)}},
+		{Name: "uid-forms-hold-removals-back", K: 2, Ops: []Op{ // UID STORE / UID FETCH / UID SEARCH with a removal pending: no EXPUNGE, [EXPUNGEISSUED] where due
+			sel(0, 0), sel(1, 0), app(0, 0, 1), app(0, 0), app(0, 0), drain(1), cmd(1, "noop"), cmd(1, "probe"),
+			cmd(0, "expunge"), drain(1), byuid(store(1, []int{2}, "add", false, 3)), cmd(1, "probe"), byuid(store(1, []int{3}, "add", true, 4)),
+			byuid(fb(1, "fetchbody", 2)), byuid(cmd(1, "search")), cmd(1, "probe"), qs(1)}},
 		{Name: "pending-exists-then-readd", K: 2, Ops: []Op{ // appended, removed and put back before the observer heard of it at all
 			sel(0, 0), sel(1, 0), app(0, 0), mv(0, []int{1}, 1), sel(0, 1), mv(0, []int{1}, 0), sel(0, 0),
 			drain(1), cmd(1, "search"), cmd(1, "probe"), qs(1)}},
